@@ -63,7 +63,7 @@ Theorem decl_params : forall fuel d dc,
   Forall2 (fun p q => fst q = fst p /\
                       match snd p with
                       | None => snd q = None
-                      | Some u => exists x, name_of R u = Ok x /\ snd q = Some x
+                      | Some u => exists x, name_of R (rsubst (dummies (attrs_of d)) u) = Ok x /\ snd q = Some x
                       end) (c_params (attrs_of d)) (d_params dc).
 Proof.
   intros fuel d dc H. unfold decl_of in H.
